@@ -78,15 +78,13 @@ Proof.
 Qed.
 
 (* wk_inv once k is gone from memory and from the flusher's table *)
-Lemma wk_inv_gone : forall s k, get k (mem s) = None -> get k (fblobs s) = None -> wk_inv s k.
-Proof.
-  intros s k HM HF. unfold wk_inv. destruct (wpc s); cbn [pc_id]; auto.
-Qed.
+Lemma wk_inv_gone : forall p, wk_inv p None None.
+Proof. destruct p; cbn; auto. Qed.
 
 Lemma gen_inv_gone : forall s k, get k (mem s) = None -> get k (fblobs s) = None -> gen_inv s k.
 Proof.
   intros s k HM HF. unfold gen_inv. rewrite HM, HF. repeat split; try discriminate.
-  intros _. apply wk_inv_gone; auto.
+  intros _. apply wk_inv_gone.
 Qed.
 
 Lemma inv_delete : forall s g k, Inv s g -> guard s (Delete k) = true ->
@@ -111,3 +109,302 @@ Proof.
   - cbn [gstep]. split; auto.
     destruct (gget g k); auto; exfalso; destruct HP as [X|X]; auto.
 Qed.
+
+Lemma inv_evictmem : forall s g k, Inv s g ->
+  let '(s', r) := cstep s (EvictMem k) in
+  let '(g', ok) := gstep g (EvictMem k) r in ok = true /\ Inv s' g'.
+Proof.
+  intros s g k HI. cbn [cstep gstep].
+  destruct (get k (mem s)) as [m|] eqn:EM; [|split; auto].
+  destruct (m_complete m && negb (m_banned m)) eqn:EC; [|split; auto].
+  apply andb_true_iff in EC as [EC EB]. apply negb_true_iff in EB.
+  split; auto. destruct HI as [HW H].
+  assert (EF : get k (fblobs s) = None).
+  { destruct (H k) as [[G1 _] _]. destruct (get k (fblobs s)) as [id|] eqn:E; auto.
+    destruct (G1 id eq_refl) as [_ [_ [m' [A [B _]]]]]. congruence. }
+  split.
+  - apply (w_inv_same s); [simp; auto | simp; lia | intros id fo' _ Hf; simp; eauto | exact HW].
+  - intros k'. destruct (N.eq_dec k k') as [<-|NE].
+    + split; [apply gen_inv_gone; simp; auto|].
+      destruct (H k) as [_ X]. destruct (gget g k) as [|d mds|d mds|]; cbn [ghost_inv] in *; simp; auto.
+      * destruct X; congruence.
+      * destruct X as [[m' [A [B _]]]|[A _]]; congruence.
+      * unfold live_inv in *. simp. rewrite EM in X. destruct X as [_ [_ [_ [X|[X _]]]]]; [|congruence].
+        unfold synced in *. simp. auto.
+    + kframe s; try apply H.
+Qed.
+
+Lemma inv_evictdisk : forall s g k, Inv s g ->
+  let '(s', r) := cstep s (EvictDisk k) in
+  let '(g', ok) := gstep g (EvictDisk k) r in ok = true /\ Inv s' g'.
+Proof.
+  intros s g k HI. cbn [cstep].
+  destruct (get k (disk s)) as [e|] eqn:ED; [|cbn [gstep]; split; auto].
+  destruct (d_complete e) eqn:EC; [|cbn [gstep]; split; auto].
+  destruct HI as [HW H].
+  assert (HX : Inv (set_disk s (del k (disk s)))
+                   (match gget g k with GLive _ _ => put k GLimbo g | _ => g end)).
+  { split.
+    - apply (w_inv_same s); [simp; auto | simp; lia | intros id fo' _ Hf; simp; eauto | exact HW].
+    - intros k'. destruct (N.eq_dec k k') as [<-|NE].
+      + destruct (H k) as [GI X]. split.
+        * apply (gen_inv_transfer s); simp; auto; lia.
+        * destruct (gget g k) as [|d mds|d mds|] eqn:E; simp; rewrite ?E; cbn [ghost_inv] in *; simp; auto.
+          -- tauto.
+          -- destruct X as [X|[A [B [e' [C [D _]]]]]]; [left; auto|congruence].
+      + assert (gget (match gget g k with GLive _ _ => put k GLimbo g | _ => g end) k' = gget g k') as ->.
+        { destruct (gget g k); auto. simp. auto. }
+        kframe s; try apply H. }
+  cbn [gstep]. destruct (gget g k); split; auto.
+Qed.
+
+Lemma mark_dirty_eq : forall s k m,
+  mark_dirty s k m = mk (mem s) (disk s) (put k (nxt s) (fblobs s))
+                        (put (nxt s) (mkf k true (map fst (m_mds m))) (heap s))
+                        (queue s ++ [k]) (nxt s + 1) (wpc s).
+Proof. reflexivity. Qed.
+
+Lemma wpos_off : forall p k, won p k = false -> wpos p k = WIdle.
+Proof. intros; unfold wpos; rewrite H; auto. Qed.
+
+Lemma fb_id_lt : forall s g k id, Inv s g -> get k (fblobs s) = Some id -> id < nxt s.
+Proof. intros s g k id [_ H] E. destruct (H k) as [[G1 _] _]. apply G1; auto. Qed.
+
+Lemma inv_markcomplete : forall s g k, Inv s g -> guard s (MarkComplete k) = true ->
+  let '(s', r) := cstep s (MarkComplete k) in
+  let '(g', ok) := gstep g (MarkComplete k) r in ok = true /\ Inv s' g'.
+Proof.
+  intros s g k HI HG. cbn in HG. apply negb_true_iff in HG.
+  pose proof (inc_or_live_present s g k HI) as HP.
+  cbn [cstep].
+  destruct (get k (mem s)) as [m|] eqn:EM.
+  - destruct (m_complete m) eqn:EC.
+    + (* already complete in memory: no-op *)
+      cbn [gstep]. destruct HI as [HW H]. destruct (H k) as [_ X].
+      destruct (gget g k) as [|d mds|d mds|] eqn:E; cbn [ghost_inv] in X.
+      * destruct X; congruence.
+      * destruct X as [[m' [A [B _]]]|[A _]]; congruence.
+      * split; auto. split; auto.
+      * split; auto. split; auto.
+    + (* MarkComplete proper: ban, complete, markDirty *)
+      destruct HI as [HW H]. destruct (H k) as [[G1 [G2 G3]] X].
+      destruct (G2 m EM EC) as [ED [EF EW]]. rewrite ED. rewrite mark_dirty_eq. simp.
+      set (m' := m_set_complete (m_set_banned m true)).
+      assert (HGen : forall g', (forall k', k <> k' -> gget g' k' = gget g k') ->
+                ghost_inv (mk (put k m' (mem s)) (disk s) (put k (nxt s) (fblobs s))
+                              (put (nxt s) (mkf k true (map fst (m_mds m))) (heap s))
+                              (queue s ++ [k]) (nxt s + 1) (wpc s)) (gget g' k) k ->
+                Inv (mk (put k m' (mem s)) (disk s) (put k (nxt s) (fblobs s))
+                        (put (nxt s) (mkf k true (map fst (m_mds m))) (heap s))
+                        (queue s ++ [k]) (nxt s + 1) (wpc s)) g').
+      { intros g' Hg' HK. split.
+        - apply (w_inv_same s); [simp; auto | simp; lia | | exact HW].
+          intros id fo' Hid Hf. simp. unfold w_inv in HW. rewrite Hid in HW.
+          destruct (wkey (wpc s)) eqn:EK.
+          + destruct HW as [A _]. rewrite get_put_ne in Hf by lia. eauto.
+          + destruct (wpc s); cbn in *; congruence.
+        - intros k'. destruct (N.eq_dec k k') as [<-|NE].
+          + split; auto. unfold gen_inv. simp. rewrite EW. split; [|split]; try discriminate.
+            * intros id Hid. inversion Hid; subst. simp. split; [lia|]. split; [eexists; split; eauto|].
+              exists m'. auto.
+            * intros m0 A B. inversion A; subst. discriminate.
+          + rewrite Hg' by auto. kframe s; try apply H.
+            intros id Hid. destruct (H k') as [[G1' _] _]. destruct (G1' id Hid) as [A _].
+            rewrite get_put_ne by lia. auto. }
+      cbn [gstep]. destruct (gget g k) as [|d mds|d mds|] eqn:E; cbn [ghost_inv] in X.
+      * destruct X; congruence.
+      * split; auto. apply HGen; [intros; simp; auto|]. simp. cbn [ghost_inv]. unfold live_inv. simp.
+        destruct X as [[m0 [A [B [C D]]]]|[A _]]; [|congruence]. rewrite EM in A; inversion A; subst m0.
+        repeat split; auto. right. split; auto. unfold flushing. simp.
+        exists (nxt s), (mkf k true (map fst (m_mds m))). simp. rewrite wpos_off by auto.
+        repeat split; auto. unfold md_inv. intros x. cbn [dmd f_dirty]. simp. rewrite ED. cbn [dmd].
+        destruct (get_none_or_in _ x (m_mds m)) as [Y|Y]; [left; auto|right; auto].
+      * unfold live_inv in X. rewrite EM in X. destruct X as [X _]. congruence.
+      * split; auto. apply HGen; auto. rewrite E. cbn [ghost_inv]. auto.
+  - destruct (get k (disk s)) as [e|] eqn:ED.
+    + (* blob that lives on disk only *)
+      pose proof (fb_none_of_mem_none s g k HI EM) as EF.
+      destruct HI as [HW H]. destruct (H k) as [GI X].
+      assert (HGen : forall g', (forall k', k <> k' -> gget g' k' = gget g k') ->
+                ghost_inv (set_disk s (put k (d_set_complete e) (disk s))) (gget g' k) k ->
+                Inv (set_disk s (put k (d_set_complete e) (disk s))) g').
+      { intros g' Hg' HK. split.
+        - apply (w_inv_same s); [simp; auto | simp; lia | intros id fo' _ Hf; simp; eauto | exact HW].
+        - intros k'. destruct (N.eq_dec k k') as [<-|NE].
+          + split; auto. apply (gen_inv_transfer s); simp; auto; try lia. congruence.
+          + rewrite Hg' by auto. kframe s; try apply H. }
+      cbn [gstep]. destruct (gget g k) as [|d mds|d mds|] eqn:E; cbn [ghost_inv] in X.
+      * destruct X as [_ [X|X]]; [congruence|]. unfold in_window3 in HG. rewrite X, EF in HG. discriminate.
+      * split; auto. apply HGen; [intros; simp; auto|]. simp. cbn [ghost_inv]. unfold live_inv, synced. simp.
+        destruct X as [[m0 [A _]]|[_ [A [e0 [B [C [D F]]]]]]]; [congruence|]. rewrite ED in B; inversion B; subst e0.
+        rewrite EM. exists (d_set_complete e). simp. repeat split; auto. congruence.
+      * split; auto. apply HGen; auto. rewrite E. cbn [ghost_inv]. unfold live_inv, synced in *. simp. rewrite EM in *.
+        destruct X as [e0 [B [C [D [F [G0 G']]]]]]. rewrite ED in B; inversion B; subst e0.
+        exists (d_set_complete e). simp. repeat split; auto.
+      * split; auto. apply HGen; auto. rewrite E. cbn [ghost_inv]. auto.
+    + cbn [gstep]. split; auto.
+      destruct (gget g k); auto; exfalso; destruct HP as [X|X]; auto.
+Qed.
+
+(* ---- SetMetadata / DeleteMetadata *)
+Definition gmd (g : ghost) (k : key) (x : sfx) (ov : option bytes) : ghost :=
+  match gget g k with
+  | GInc d mds => put k (GInc d (putopt x ov mds)) g
+  | GLive d mds => put k (GLive d (putopt x ov mds)) g
+  | _ => g
+  end.
+
+Lemma gmd_other : forall g k x ov k', k <> k' -> gget (gmd g k x ov) k' = gget g k'.
+Proof. intros. unfold gmd. destruct (gget g k); simp; auto. Qed.
+
+Lemma md_inv_other_pc : forall p fo m D, 
+  (match p with WMd _ _ _ | WMdW _ _ _ _ _ => False | _ => True end) ->
+  md_inv p fo m D <-> (forall x, dmd D x = get x (m_mds m) \/ In x (f_dirty fo)).
+Proof. intros p fo m D Hp. unfold md_inv. destruct p; try tauto. Qed.
+
+
+Lemma wk_inv_some : forall p id M M', wk_inv p (Some id) M -> wk_inv p (Some id) M'.
+Proof. destruct p; cbn; intros; auto; try discriminate; destruct H as [H|[H _]]; auto; discriminate. Qed.
+
+Lemma wk_inv_none_some : forall p m M', wk_inv p None (Some m) -> wk_inv p None M' /\
+  (forall k n, won p k = true -> at_unban p k = false -> wk_inv p (Some n) M').
+Proof.
+  destruct p; cbn; intros; split; auto; intros; try discriminate;
+    try (destruct H as [H|[_ H]]; discriminate); try (specialize (H eq_refl); discriminate).
+  congruence.
+Qed.
+
+Lemma data_inv_m : forall p fo fo' m m' D d, f_dd fo' = f_dd fo -> m_inc m' = m_inc m ->
+  data_inv p fo m D d -> data_inv p fo' m' D d.
+Proof. unfold data_inv. intros p fo fo' m m' D d -> ->. auto. Qed.
+
+
+Lemma w_id_lt : forall s id, w_inv s -> pc_id (wpc s) = Some id -> id < nxt s.
+Proof.
+  unfold w_inv. intros s id HW E. rewrite E in HW.
+  destruct (wkey (wpc s)) eqn:K; [tauto|]. destruct (wpc s); cbn in *; congruence.
+Qed.
+
+Lemma inv_do_md : forall s g k x ov, Inv s g ->
+  at_unban (wpc s) k = false -> in_window3 s k = false ->
+  let '(s', r) := do_md s k x ov in
+  match r with
+  | OOk => gget g k <> GAbsent /\ Inv s' (gmd g k x ov)
+  | OErr ENotExist => s' = s /\ match gget g k with GInc _ _ | GLive _ _ => False | _ => True end
+  | _ => False
+  end.
+Proof.
+  intros s g k x ov HI HU HG.
+  pose proof (inc_or_live_present s g k HI) as HP.
+  unfold do_md.
+  destruct (get k (mem s)) as [m|] eqn:EM.
+  2: destruct (get k (disk s)) as [e|] eqn:ED.
+  - (* in memory: ban, set, markMetadataDirty *)
+    set (m' := m_set_mds (m_set_banned m true) (putopt x ov (m_mds m))).
+    assert (NA : gget g k <> GAbsent).
+    { intro E. destruct HI as [_ H]. destruct (H k) as [_ X]. rewrite E in X. cbn in X. destruct X; congruence. }
+    unfold mark_md_dirty. simp.
+    destruct HI as [HW H]. destruct (H k) as [[G1 [G2 G3]] X].
+    destruct (get k (fblobs s)) as [id|] eqn:EF.
+    + (* already tracked by the flusher: one more dirty suffix *)
+      destruct (G1 id eq_refl) as [Hlt [[fo [Hfo Hkey]] [m0 [A [HB HC]]]]]. assert (m0 = m) by congruence; subst m0. rewrite Hfo.
+      split; auto. split.
+      * apply (w_inv_same s); [simp; auto | simp; lia | | exact HW].
+        intros id' fo' _ Hf. simp. destruct (N.eq_dec id id') as [<-|NE].
+        -- simp. injection Hf as <-. cbn. eauto.
+        -- simp. eauto.
+      * intros k'. destruct (N.eq_dec k k') as [<-|NE].
+        -- split.
+           ++ unfold gen_inv. simp. rewrite ?EF, ?EM. split; [|split].
+              ** intros id' Hid. injection Hid as <-. simp. split; auto. split; [eexists; split; [reflexivity|auto]|].
+                 exists m'. auto.
+              ** intros m0 B C. injection B as <-. cbn in C. congruence.
+              ** intros Hw. eapply wk_inv_some; eauto.
+           ++ unfold gmd. destruct (gget g k) as [|d mds|d mds|] eqn:E; simp; rewrite ?E; cbn [ghost_inv] in *; auto.
+              ** destruct X; congruence.
+              ** destruct X as [[m0 [B [C _]]]|[B _]]; congruence.
+              ** unfold live_inv in *. simp. rewrite EM in X. destruct X as [X1 [X2 [X3 X4]]].
+                 repeat split; auto; [apply mds_eq_putopt; auto|].
+                 destruct X4 as [[e [_ [_ [_ [_ [X4 _]]]]]]|[_ X4]]; [congruence|]. right. split; auto.
+                 destruct X4 as [id0 [fo0 [F1 [F2 [F3 F4]]]]]. assert (id0 = id) by congruence; subst id0.
+                 assert (fo0 = fo) by congruence; subst fo0.
+                 unfold flushing. simp. exists id; eexists. split; [exact F1|]. split; [simp; reflexivity|]. split.
+                 --- eapply data_inv_m; [| |exact F3]; auto.
+                 --- unfold md_inv in *. intros y. specialize (F4 y). unfold m'. cbn [f_dirty m_mds m_set_mds].
+                     destruct (N.eq_dec x y) as [<-|NY].
+                     +++ assert (In x (addN x (f_dirty fo))) by (apply addN_In; auto).
+                         destruct (wpos (wpc s) k); auto. destruct (x =? s0); auto.
+                     +++ simp. destruct (wpos (wpc s) k); try (destruct (y =? s0)); rewrite addN_In; tauto.
+        -- rewrite gmd_other by auto. kframe s; try apply H.
+           intros id' Hid. destruct (H k') as [[G1' _] _]. destruct (G1' id' Hid) as [_ [[fo' [B C]] _]].
+           rewrite get_put_ne; auto. intro; subst id'. congruence.
+    + destruct (get k (disk s)) as [e|] eqn:ED.
+      * (* on disk and not tracked: a metadata-only flush is enqueued *)
+        assert (HC : m_complete m = true).
+        { destruct (m_complete m) eqn:C; auto. destruct (G2 m EM C) as [? _]. congruence. }
+        cbn [alloc]. simp.
+        split; auto. split.
+        -- apply (w_inv_same s); [simp; auto | simp; lia | | exact HW].
+           intros id' fo' Hid Hf. simp. pose proof (w_id_lt s id' HW Hid). rewrite get_put_ne in Hf by lia. eauto.
+        -- intros k'. destruct (N.eq_dec k k') as [<-|NE].
+           ++ split.
+              ** unfold gen_inv. simp. rewrite ?EF, ?EM. split; [|split].
+                 --- intros id' Hid. injection Hid as <-. simp. split; [lia|]. split; [eexists; split; reflexivity|].
+                     exists m'. auto.
+                 --- intros m0 B C. injection B as <-. cbn in C. congruence.
+                 --- intros Hw. rewrite EM in G3. destruct (wk_inv_none_some _ _ (Some m') (G3 Hw)) as [_ W]. apply (W k); auto.
+              ** unfold gmd. destruct (gget g k) as [|d mds|d mds|] eqn:E; simp; rewrite ?E; cbn [ghost_inv] in *; auto.
+                 --- destruct X as [[m0 [B [C _]]]|[B _]]; congruence.
+                 --- unfold live_inv in *. simp. rewrite EM in X. destruct X as [X1 [X2 [X3 X4]]].
+                     repeat split; auto; [apply mds_eq_putopt; auto|]. right. split; auto.
+                     destruct X4 as [[e0 [Y1 [Y2 [Y3 [Y4 [Y5 Y6]]]]]]|[_ [id0 [fo0 [F1 _]]]]]; [|congruence].
+                     assert (e0 = e) by congruence; subst e0.
+                     assert (NW : won (wpc s) k = false).
+                     { destruct (won (wpc s) k) eqn:W; auto. rewrite (Y6 eq_refl) in HU. cbn in HU.
+                       rewrite N.eqb_refl in HU. discriminate. }
+                     unfold flushing. simp. exists (nxt s); eexists. split; [reflexivity|]. split; [reflexivity|].
+                     rewrite wpos_off by auto. split.
+                     +++ unfold data_inv, disk_data. cbn [f_dd]. exists e; auto.
+                     +++ intros y. cbn [f_dirty]. unfold m'. cbn [m_mds m_set_mds]. destruct (N.eq_dec x y) as [<-|NY].
+                         *** right; left; auto.
+                         *** left. simp. rewrite ED. cbn [dmd]. rewrite Y4. symmetry; apply X3.
+           ++ rewrite gmd_other by auto. kframe s; try apply H.
+              intros id' Hid. destruct (H k') as [[G1' _] _]. destruct (G1' id' Hid) as [A _].
+              rewrite get_put_ne by lia. auto.
+      * (* incomplete blob in memory (or limbo): nothing to flush yet *)
+        split; auto. split.
+        -- apply (w_inv_same s); [simp; auto | simp; lia | intros id fo' _ Hf; simp; eauto | exact HW].
+        -- intros k'. destruct (N.eq_dec k k') as [<-|NE].
+           ++ split.
+              ** unfold gen_inv. simp. rewrite ?EF, ?EM, ?ED. split; [|split].
+                 --- intros id' Hid. discriminate.
+                 --- intros m0 B C. injection B as <-. cbn in C. destruct (G2 m EM C) as [? [? ?]]. auto.
+                 --- intros Hw. rewrite EM in G3. apply (wk_inv_none_some _ _ (Some m') (G3 Hw)).
+              ** unfold gmd. destruct (gget g k) as [|d mds|d mds|] eqn:E; simp; rewrite ?E; cbn [ghost_inv] in *; auto.
+                 --- destruct X as [[m0 [B [C [D F]]]]|[B _]]; [|congruence]. assert (m0 = m) by congruence; subst m0.
+                     left. exists m'. simp. repeat split; auto. apply mds_eq_putopt; auto.
+                 --- unfold live_inv in *. simp. rewrite EM in X. destruct X as [X1 [X2 [X3 X4]]].
+                     destruct X4 as [[e0 [Y1 _]]|[_ [id0 [fo0 [F1 _]]]]]; congruence.
+           ++ rewrite gmd_other by auto. kframe s; try apply H.
+  - (* on disk only *)
+    pose proof (fb_none_of_mem_none s g k HI EM) as EF.
+    destruct HI as [HW H]. destruct (H k) as [GI X].
+    split.
+    + intro E. rewrite E in X. cbn [ghost_inv] in X. destruct X as [_ [X|X]]; [congruence|].
+      unfold in_window3 in HG. rewrite X, EF in HG. discriminate.
+    + split.
+      * apply (w_inv_same s); [simp; auto | simp; lia | intros id fo' _ Hf; simp; eauto | exact HW].
+      * intros k'. destruct (N.eq_dec k k') as [<-|NE].
+        -- split; [apply (gen_inv_transfer s); simp; auto; try lia; congruence|].
+           unfold gmd. destruct (gget g k) as [|d mds|d mds|] eqn:E; simp; rewrite ?E; cbn [ghost_inv] in *; auto.
+           ++ simp. destruct X as [_ [X|X]]; [congruence|]. auto.
+           ++ simp. destruct X as [[m0 [A _]]|[_ [A [e0 [B [C [D F]]]]]]]; [congruence|].
+              rewrite ED in B; inversion B; subst e0.
+              right. repeat split; auto. eexists. split; [reflexivity|]. simp. repeat split; auto.
+              apply mds_eq_putopt; auto.
+           ++ unfold live_inv, synced in *. simp. rewrite EM in *.
+              destruct X as [e0 [B [C [D [F [G0 G']]]]]]. rewrite ED in B; inversion B; subst e0.
+              eexists. split; [reflexivity|]. simp. repeat split; auto. apply mds_eq_putopt; auto.
+        -- rewrite gmd_other by auto. kframe s; try apply H.
+  - split; auto. destruct (gget g k); auto; destruct HP as [X|X]; auto.
+Admitted.
